@@ -24,6 +24,8 @@
 (*                          file receives the PREVIOUS live value                                   *)
 (*   ClobbersOther          the assignment re-writes another attribute b with the value the entity  *)
 (*                          was stored with (a stale copy)                                          *)
+(*   DestroysStored         the persistence step removes the stored value without writing the new   *)
+(*                          one: a reader sees neither the old nor the new value (pseudo-token Lost)*)
 (*   StaleLive              the value is persisted but the getter keeps answering from a cache the  *)
 (*                          setter does not refresh: the file is right, the live object is not      *)
 EXTENDS Naturals, FiniteSets, Sequences, TLC, TLCExt, Json
@@ -39,6 +41,8 @@ CONSTANTS
 
 Slots  == 1..K
 Tokens == 0..T
+Lost   == T + 1      \* "none of the values of the domain": what a reader sees after DestroysStored
+Seen   == 0..(T + 1)
 
 VARIABLES live, stored, open, want, hist, last
 vars == <<live, stored, open, want, hist, last>>
@@ -48,7 +52,7 @@ Lbl(act, a, t, out, dev, b, heal) ==
     [act |-> act, a |-> a, t |-> t, out |-> out, dev |-> dev, b |-> b, heal |-> heal]
 
 TypeOK ==
-    /\ live \in [Slots -> Tokens] /\ stored \in [Slots -> Tokens] /\ want \in [Slots -> Tokens]
+    /\ live \in [Slots -> Seen] /\ stored \in [Slots -> Seen] /\ want \in [Slots -> Tokens]
     /\ open \in BOOLEAN
 
 Init ==
@@ -67,6 +71,8 @@ Lagging(a) == {s \in Slots \ {a} : live[s] # stored[s]}
 \* file content when slot a receives v and the slots in H are re-written from memory
 Persist(a, v, H) == [s \in Slots |-> IF s = a THEN v ELSE IF s \in H THEN live[s] ELSE stored[s]]
 
+\* a deviating outcome re-writes none or all of the lagging slots (the specified outcome: any subset)
+AllOrNone(S) == {{}, S}
 Outcomes(a, t) ==
     {[st |-> Persist(a, t, H), lv |-> t, dev |-> "", b |-> 0, heal |-> H] : H \in SUBSET Lagging(a)}
     \cup
@@ -75,18 +81,23 @@ Outcomes(a, t) ==
     \cup
     (IF "PersistsBeforeStoring" \in Deviations /\ live[a] # t
      THEN {[st |-> Persist(a, live[a], H), lv |-> t, dev |-> "PersistsBeforeStoring", b |-> 0, heal |-> H] :
-              H \in SUBSET Lagging(a)}
+              H \in AllOrNone(Lagging(a))}
      ELSE {})
     \cup
     (IF "ClobbersOther" \in Deviations
      THEN UNION {{[st |-> [Persist(a, t, H) EXCEPT ![b] = 0], lv |-> t, dev |-> "ClobbersOther", b |-> b, heal |-> H] :
-                     H \in SUBSET (Lagging(a) \ {b})} :
+                     H \in AllOrNone(Lagging(a) \ {b})} :
                  b \in {s \in Slots \ {a} : stored[s] # 0}}
+     ELSE {})
+    \cup
+    (IF "DestroysStored" \in Deviations
+     THEN {[st |-> Persist(a, Lost, H), lv |-> t, dev |-> "DestroysStored", b |-> 0, heal |-> H] :
+              H \in AllOrNone(Lagging(a))}
      ELSE {})
     \cup
     (IF "StaleLive" \in Deviations /\ live[a] # t
      THEN {[st |-> Persist(a, t, H), lv |-> live[a], dev |-> "StaleLive", b |-> 0, heal |-> H] :
-              H \in SUBSET Lagging(a)}
+              H \in AllOrNone(Lagging(a))}
      ELSE {})
 
 Assign(act, a, t) ==
@@ -102,7 +113,7 @@ Assign(act, a, t) ==
 \* assign a valid value different from the current one
 Set(a, t) == t # live[a] /\ Assign("Set", a, t)
 \* assign the current value again
-SetSame(a) == Assign("SetSame", a, live[a])
+SetSame(a) == live[a] \in Tokens /\ Assign("SetSame", a, live[a])
 \* an assignment the setter refuses (raises): nothing changes
 SetInvalid(a) ==
     /\ WithInvalid /\ open
